@@ -240,7 +240,7 @@ class Run:
             if op['kind'] == 'register':
                 world.register(op['alg'], op['fn'])
                 return None
-            args = [ops.build_operand(world, op['alg'], r) for r in op.get('args', [])]
+            args = ops.build_operands(world, op['alg'], op.get('args', []))
             self._argkeys = [tuple(a.keys()) if hasattr(a, 'keys') and hasattr(a, 'values') else None for a in args]
             self.track(f'operand of {label}', args, hold=False)
             res = ops.apply_op(world, op, args)
